@@ -388,6 +388,7 @@ func TestVerifC13Decode(t *testing.T) {
 		}
 	}
 
+	dValidateStream(out, r, all)
 	dFaithful(t, out, r, all)
 }
 
